@@ -18,7 +18,9 @@ POLLER_TB = [
 ]
 
 
-def kind(c): return c.req.split(' ', 1)[0]
+def kind(c):
+    k = c.req.split(' ', 1)[0]
+    return 'poll' if k == 'pollr' else k   # pollr = a poll scenario through the thread's real entry point
 
 
 def poll_parts(ans):
